@@ -316,8 +316,9 @@ func main() {
 	for k := 0; k < 3; k++ {
 		scens = append(scens, sdrive.Scenario{Name: "S-" + handlerNames[k] + "-2derivers", Props: []string{"C03"},
 			About: "two goroutines derive from the same non-root parent (which carries attributes and an open group), log through child, parent and grandchild",
-			Quick: P(0, 1, 2), Thorough: PS(16, 0, 1, -1), Body: sbody(k), MinOutcomes: 3})
+			Quick: P(0, 1, 2), Thorough: PS(16, 0, 1, 2, 3), Body: sbody(k), MinOutcomes: 3})
 	}
+	sdrive.Budget = 0.6 // the rest of the time cap belongs to the sequential part below
 	cov, viols := sdrive.Collect(scens)
 	depth := 4
 	if vcommon.Thorough() {
